@@ -270,6 +270,17 @@ fn run_case_inner(case: &Case, rep: &mut Report) -> Option<(String, String)> {
                         }
                     }
                 }
+                // a character of 2, 3 or 4 bytes in place of any single character (prefix, separator, data): rejected,
+                // never a panic (byte offsets computed from the prefix length fall inside such a character)
+                for pos in 0..chars.len() {
+                    for sub in ["é", "✓", "😀"] {
+                        let s = format!("{}{}{}", &reference[..pos], sub, &reference[pos + 1..]);
+                        if api.addr_validate(&s).is_ok() || api.addr_canonicalize(&s).is_ok() {
+                            fail!("accepts-invalid-character", "{:?} prefix {:?}: accepted {} (position {} -> {:?})", v, prefix, s, pos, sub);
+                        }
+                        rep.bump("c18/multibyte_char_rejected");
+                    }
+                }
                 // insertions / deletions: tried and counted, never judged (documented Bech32 weakness)
                 for pos in (sep + 1)..chars.len() {
                     let mut c = chars.clone();
